@@ -32,7 +32,7 @@ func init() {
 			"(5) a finished transaction is inert (C17 rule 1); (6) a successful transactional Put/Delete has buffered exactly that operation; (7) shared with C01/C08: batch entries are stamped with the number the log assigned (a later commit is never shadowed by an older transaction's higher stamp) and an empty value is never turned into a deletion marker on the way into the buffer. " +
 			"Added after blind round 5: the retry wrapper's decision table (exhausted retries report an error).",
 		NotDecided: "equivalence of all interleavings to a serial order (needs histories); non-transactional writers are excluded by the property itself.",
-		Rules:      []func(*Ctx, *Reporter){ruleTxAcquire, ruleTxRelease, ruleTxLockWriters, ruleTxApplyInside, ruleTxOwnWrites, ruleTxFinishOnce, ruleTxOpsBuffered, ruleStStamps, ruleEmptyNotDeleted, subRules(ruleStEffectOnce, "retry-only-on-rotating")},
+		Rules:      []func(*Ctx, *Reporter){ruleTxAcquire, ruleTxRelease, ruleTxLockWriters, ruleTxApplyInside, ruleTxOwnWrites, ruleTxFinishOnce, ruleTxOpsBuffered, ruleStStamps, ruleEmptyNotDeleted, subRules(ruleStEffectOnce, "retry-only-on-rotating"), ruleBufferViewsFollowMap, subRules(ruleMemVisibility, "next-seq-guard")},
 	})
 }
 
